@@ -78,9 +78,9 @@ impl Prop for P {
                 // either created at the level, or created at another level and switched with
                 // set_compression_level_raw before any data (which resets the strategy to Default)
                 let (mut c, strategy) = match created_at {
-                    None => (Config { ctor: Ctor::Flags, level: *level as i32, strategy: *strategy as i32, zlib: *zlib, wbits: 15 }.make(), *strategy),
+                    None => (Config { ctor: Ctor::Flags, level: *level as i32, strategy: *strategy as i32, zlib: *zlib, wbits: 15, hand: 0 }.make(), *strategy),
                     Some(l0) => {
-                        let mut c = Config { ctor: Ctor::Flags, level: *l0 as i32, strategy: *strategy as i32, zlib: *zlib, wbits: 15 }.make();
+                        let mut c = Config { ctor: Ctor::Flags, level: *l0 as i32, strategy: *strategy as i32, zlib: *zlib, wbits: 15, hand: 0 }.make();
                         c.set_compression_level_raw(*level);
                         cx.class("twice:level-set-after-construction");
                         (c, 0u8)
@@ -96,7 +96,7 @@ impl Prop for P {
             }
             Case::Run { n, byte, level, zlib } => {
                 let x = vec![*byte; *n as usize];
-                let cfg = Config { ctor: Ctor::Flags, level: *level as i32, strategy: 3, zlib: *zlib, wbits: 15 };
+                let cfg = Config { ctor: Ctor::Flags, level: *level as i32, strategy: 3, zlib: *zlib, wbits: 15, hand: 0 };
                 let mut c = cfg.make();
                 let run = drive_compress(&mut c, &x, &Schedule { steps: vec![], finish_out: vec![1 << 20] }, Driver::Buf)?;
                 cx.nontrivial();
